@@ -115,21 +115,36 @@ func checkC05(p *core.Program, r *core.Report) {
 	var limitCond *ssa.BinOp
 	var counterInc *ssa.BinOp
 	var limitTaken bool
+	var limitOp token.Token
 	for _, ce := range core.ControllingConds(visitCall.Block()) {
 		bo, ok := ce.Cond.(*ssa.BinOp)
 		if !ok {
 			continue
 		}
-		var cnt, lim ssa.Value
-		switch bo.Op {
-		case token.GTR, token.GEQ:
-			cnt, lim = bo.X, bo.Y
-		case token.LSS, token.LEQ:
-			cnt, lim = bo.Y, bo.X
+		// normalise to `counter OP limit`, whichever side the limit is written on
+		var cnt ssa.Value
+		op := bo.Op
+		switch {
+		case derivesFromOptionsField(bo.Y, "MaxStepsPerSprint"):
+			cnt = bo.X
+		case derivesFromOptionsField(bo.X, "MaxStepsPerSprint"):
+			cnt = bo.Y
+			switch op {
+			case token.LSS:
+				op = token.GTR
+			case token.LEQ:
+				op = token.GEQ
+			case token.GTR:
+				op = token.LSS
+			case token.GEQ:
+				op = token.LEQ
+			}
 		default:
 			continue
 		}
-		if !derivesFromOptionsField(lim, "MaxStepsPerSprint") {
+		switch op {
+		case token.GTR, token.GEQ, token.LSS, token.LEQ:
+		default:
 			continue
 		}
 		if inc, ok := cnt.(*ssa.BinOp); ok && inc.Op == token.ADD {
@@ -137,23 +152,20 @@ func checkC05(p *core.Program, r *core.Report) {
 				counterInc = inc
 			}
 		}
-		limitCond, limitTaken = bo, ce.Taken
+		limitCond, limitTaken, limitOp = bo, ce.Taken, op
 	}
 	if !r.Check(limitCond != nil, "R1", "continueUntilWait/limit-test-dominates-visit", p.Pos(visitCall.Pos()), "visitNode is dominated by a comparison of the step counter with Options().MaxStepsPerSprint",
 		"no comparison with MaxStepsPerSprint dominates the node visit: a flow loop never ends the sprint") {
 		return
 	}
-	// polarity: visit on the edge where counter <= limit
-	okPol := (limitCond.Op == token.GTR || limitCond.Op == token.GEQ) && !limitTaken
-	if limitCond.Op == token.LSS || limitCond.Op == token.LEQ {
-		// written as limit < counter
-		okPol = !limitTaken
-	}
+	// polarity: visit on the edge where counter <= limit (exceeds := counter > / >= limit)
+	exceedsForm := limitOp == token.GTR || limitOp == token.GEQ
+	okPol := (exceedsForm && !limitTaken) || (!exceedsForm && limitTaken)
 	r.Check(okPol, "R1", "continueUntilWait/visit-on-within-limit-edge", p.Pos(limitCond.Pos()), "the node is visited on the edge where the counter does not exceed the limit", "the node is visited on the edge where the limit is exceeded")
 	// normal forms: post-increment counter > L (at most L steps), pre... the compared value must be the incremented counter
 	if r.Check(counterInc != nil, "R1", "continueUntilWait/compares-incremented-counter", p.Pos(limitCond.Pos()), "the compared value is counter+1 computed in this iteration",
 		"the value compared with the limit is not the counter incremented in this iteration (increment moved after the visit, or a different variable)") {
-		r.Check(limitCond.Op == token.GTR || limitCond.Op == token.LSS, "R1", "continueUntilWait/limit-form", p.Pos(limitCond.Pos()), "counter+1 > limit: at most `limit` steps",
+		r.Check(limitOp == token.GTR || limitOp == token.LEQ, "R1", "continueUntilWait/limit-form", p.Pos(limitCond.Pos()), "counter+1 > limit: at most `limit` steps",
 			"with counter+1 >= limit the sprint stops one step early; accepted forms are (counter+1) > limit")
 		// counter phi: starts at 0, other edges are itself or the increment
 		phi, ok := counterInc.X.(*ssa.Phi)
